@@ -2,6 +2,7 @@ import sys
 
 import python_minifier.ast_compat as ast
 
+from python_minifier.ast_annotation import get_parent
 from python_minifier.util import is_constant_node
 
 
@@ -32,6 +33,22 @@ def iter_child_namespaces(node):
         else:
             for c in iter_child_namespaces(child):
                 yield c
+
+
+def is_module_annotation_without_value(node):
+    """
+    Is this Name the target of an annotation without a value, at module level?
+
+    `name: annotation` in a function makes the name local, but in a module it binds nothing.
+    """
+
+    parent = get_parent(node)
+    return (
+        isinstance(parent, ast.AnnAssign)
+        and parent.value is None
+        and parent.target is node
+        and isinstance(node.namespace, ast.Module)
+    )
 
 
 def get_global_namespace(node):
@@ -199,7 +216,9 @@ def allow_rename_globals(module, rename_globals=False, preserve_globals=None):
         for node in binding.references:
             if isinstance(node, ast.Global):
                 declared = True
-            elif not (isinstance(node, ast.Name) and isinstance(node.ctx, (ast.Load, ast.Del))):
+            elif not isinstance(node, ast.Name):
+                return False
+            elif not (isinstance(node.ctx, (ast.Load, ast.Del)) or is_module_annotation_without_value(node)):
                 return False
         return declared
 
